@@ -319,7 +319,7 @@ func (l *Lexer) readHTML() string {
 			// escape escaping
 			l.readChar()
 			x := l.input[position : l.position-1]
-			return x
+			return strings.Replace(x, "\\<%", "<%", -1)
 		}
 
 		// allow for expression escaping using \<% foo %>
